@@ -51,7 +51,17 @@ NEEDS = {
  "C17b": "a constant node in the cone of an output",
  "C18b": "at least two cut feedback nodes and a PYTHONHASHSEED under which two unrelated sets enumerate in different relative order",
  "C19b": "sequential_unroll with ignore_pins naming a real pin of the flop BlackBox (also when the call then raises)",
- "C03b": "",
+ "C03b": "a primary input that is also an output (the writer declares it twice: input then output)",
+ "C01c": "an assumption that sets a dangling startpoint (unloaded input / unconnected blackbox output) to False AND a solver that returns True for that unconstrained variable",
+ "C04c": "an even, non-power-of-two number of compared endpoints (6, 10, 12, ...) with the differing endpoint among the last in set-iteration order",
+ "C05c": "an xor/xnor gate with more than k operands that lists a, b and xor(a, b) among them, and a hash order that pops {a, b} together (3 of 32 seeds)",
+ "C06c": "two instances where one name is a substring of the other (u_r carried over next to r) and the longer one filled first",
+ "C07c": "a three-call history: a driven node named <inst>_<pin> exists, add_blackbox(<inst>) with that pin connected, fill_blackbox with a model that lacks that input pin",
+ "C08c": "a solver that tries 0 first (or any order in which a model's 1-startpoints are not supersets of earlier ones)",
+ "C11c": "a hash order in which two equal sets enumerate differently (14 of 40 seeds) and a function asymmetric in its startpoints; only dif_out_<s>, not sen_out",
+ "C16c": "a dead node whose dead load was created before it (port first, add(..., fanout=...), relabel, netlists in file order)",
+ "C17c": "",
+ "C19c": "influence/avg_sensitivity with supergates=True and a peer failure in the middle (solver raises, pysat unimportable, approxmc missing or exit 1)",
  "C19": "tx.subcircuit asked for ALL nodes of a blackbox-free circuit (directly or through sensitization_transform / influence with an endpoint whose cone is the whole circuit), then any edit or the internal set_output",
  "C01": "two parity gates with >= 3 inputs sharing two operands that a hash order pairs in opposite order in the same chain stage (2 of 300 PYTHONHASHSEED values for a fixed circuit)",
 }
@@ -80,6 +90,8 @@ def main():
         prop = sid[:3]
         if sid.endswith("b"):
             src2 = " (round 2: told which round-1 change not to repeat)"
+        elif sid.endswith("c"):
+            src2 = " (round 3: asked for a change whose visibility depends on solver model choice / hash order / a failure path / a call history)"
         else:
             src2 = ""
         scratch = tempfile.mkdtemp(prefix="cgseed_")
